@@ -82,7 +82,8 @@ def _def_rules(F, R, nm, ty, d, m, lay, cs):
                 nxt = v["discr"]
             want.append(nxt)
             nxt += 1
-        for adt_name, what in (("flatty_corpus::" + nm, "the enum"), ("flatty_corpus::%sTag" % nm, "the generated tag helper")):
+        dn = d.get("generic") or nm
+        for adt_name, what in (("flatty_corpus::" + dn, "the enum"), ("flatty_corpus::%sTag" % dn, "the generated tag helper")):
             adt = F.adts.get(adt_name)
             if not adt or adt.get("adt_kind") != "enum":
                 continue
